@@ -857,3 +857,24 @@ def c07_closure_registry(ctx, repo):
     diff = [(x, y) for x, y in zip(a, b2) if x != y]
     ok = len(a) == len(b2) and not diff
     ctx.ob("F22-hvar", vv.where, f"HVAR.subset_glyphs mapped to vertical names == VVAR.subset_glyphs minus VOrgMap ({len(a)} statements)", ok, "" if ok else f"the twins differ: {diff[:1] or (len(a), len(b2))}")
+
+
+def c08_distance_carry(ctx, repo):
+    ctx.rule("DIST", "every NormalizedAxisTripleAndDistances built for a non-degenerate range carries the pre-normalisation distances (positional args 4 and 5); only pins (v, v, v) and the canonical full range (-1, 0, +1) may rely on the 1:1 defaults", floor=3)
+    for rel in ("varLib/instancer/__init__.py", "varLib/instancer/featureVars.py", "varLib/instancer/solver.py", "ttLib/tables/_a_v_a_r.py"):
+        if not repo.has(rel):
+            continue
+        mod = repo.mod(rel)
+        from .safety import _func_qual_of
+
+        for c in calls_in(mod.tree):
+            if call_name(c) != "NormalizedAxisTripleAndDistances":
+                continue
+            args = [norm(a) for a in c.args]
+            kws = {k.arg for k in c.keywords}
+            starred = any(isinstance(a, ast.Starred) for a in c.args)
+            n_eff = len(args) + (2 if starred else 0)  # *(... for v in (min, default, max)) expands to three
+            has_dist = n_eff >= 5 or {"distanceNegative", "distancePositive"} <= kws
+            degenerate = (len(args) == 3 and len(set(args)) == 1) or args == ["-1", "0", "+1"] or args == ["-1", "0", "1"]
+            ok = has_dist or degenerate
+            ctx.ob("DIST", f"{rel}:{_func_qual_of(mod, c)}", f"NormalizedAxisTripleAndDistances({', '.join(args)[:70]})", ok, "" if ok else "a real range is built with the default 1:1 distances: renormalisation uses different weights than the rebased tents")
